@@ -82,7 +82,7 @@ def shard_fn(shard, nshards, seed, tier, exe, ntexts, ntrees):
             cmds.append("PUT 0")
         cmds.append("LOC 0")
         cases.append(("%d.cfg%d" % (shard, cfg), cmds))
-    results, crashes = core.run_script(exe, cases, env={"LOCPATH": locale_synth.LOCDIR}, tag="c14")
+    results, crashes = core.run_script(exe, cases, env=dict({"LOCPATH": locale_synth.LOCDIR}, **core.ambient_env(sh, shard)), tag="c14")
     cmdmap = dict(cases)
     for cr in crashes:
         kind, frame = cr.summary()
